@@ -234,7 +234,7 @@ def check_header_partition(chk, rule, prog, cache):
     chk.floor(rule, "partition cells", len(covered), 5)
 
 
-def check_size(chk, prog, eff, cache, H=None):
+def check_size(chk, prog, eff, cache, H=None, prefix="C07"):
     import typestate as _ts
     PA_ = _ts.PredAlgebra(prog)
     CS_ = _ts.CallSites(prog, eff, cache, {}, PA_)
@@ -245,14 +245,14 @@ def check_size(chk, prog, eff, cache, H=None):
     T = prog.enum("cbor_type")
     IW = prog.enum("cbor_int_width")
     FW = prog.enum("cbor_float_width")
-    check_header_partition(chk, "C07.size-header", prog, cache)
+    check_header_partition(chk, prefix + ".size-header", prog, cache)
 
     # expected leaf lengths from the encoder tables: width -> bytes
     nleaf = 0
     sums = 0
     nzero = 0
     npaths_ = 0
-    chk.rule("C07.size-total", "the sizing routine answers 0 (overflow / does not fit) only through the zero-signalling add: no path "
+    chk.rule(prefix + ".size-total", "the sizing routine answers 0 (overflow / does not fit) only through the zero-signalling add: no path "
                                "returns the constant 0 for an item whose type and width lie inside the enumerations")
     for k, pa in enumerate(cache.get(f.name, inline_static=True)):
         st = pa.st
@@ -264,7 +264,7 @@ def check_size(chk, prog, eff, cache, H=None):
             # the serializer, which encodes that item
             nzero += 1
             outside = (set(tys_) <= {T["CBOR_TYPE_UINT"], T["CBOR_TYPE_NEGINT"]} and not iw_) or (sorted(tys_) == [T["CBOR_TYPE_FLOAT_CTRL"]] and not fw_)
-            chk.ob("C07.size-total", "%s path %d: 0 is returned only through the signalling add" % (f.name, k), outside, where, fn=f.name,
+            chk.ob(prefix + ".size-total", "%s path %d: 0 is returned only through the signalling add" % (f.name, k), outside, where, fn=f.name,
                    key="sizetotal:%d" % k, detail="" if outside else "returns 0 by its own decision for items of type %s under %s: "
                    "cbor_serialize encodes such an item, cbor_serialized_size says it has no size"
                    % (sorted(tys_), [DR.fmt_term(t) for t, _tr, _ in pa.facts][:3]), path=pa.block_lines() if not outside else None)
@@ -304,7 +304,7 @@ def check_size(chk, prog, eff, cache, H=None):
                             continue
                         nbytes = {1: 2, 2: 4, 3: 8}[w]
                         nleaf += 1
-                        chk.ob("C07.size-leaf", "%s width %d -> %d bytes" % ("int" if is_int_ else "float", w, 1 + nbytes), got_ == 1 + nbytes, where,
+                        chk.ob(prefix + ".size-leaf", "%s width %d -> %d bytes" % ("int" if is_int_ else "float", w, 1 + nbytes), got_ == 1 + nbytes, where,
                                fn=f.name, key="leaf:%s:%d" % (is_int_, w),
                                detail="" if got_ == 1 + nbytes else "size reports %r, the encoder writes %d" % (got_, 1 + nbytes))
                 continue   # default arms (unreachable widths)
@@ -318,7 +318,7 @@ def check_size(chk, prog, eff, cache, H=None):
                     while x[0] == "cast":
                         x = x[3]
                     ok = x[0] == "call" and x[1] in ("cbor_ctrl_value", "cbor_get_uint8")
-                    chk.ob("C07.size-leaf", "8-bit value: size = header size of the value", ok, where, fn=f.name, key="leaf8:hdr:%s" % is_int)
+                    chk.ob(prefix + ".size-leaf", "8-bit value: size = header size of the value", ok, where, fn=f.name, key="leaf8:hdr:%s" % is_int)
                 else:
                     val = None
                     for t, truth, _ in pa.facts:
@@ -333,14 +333,14 @@ def check_size(chk, prog, eff, cache, H=None):
                         hi = st.hi.get(t[2], None)
                         lo = st.lo.get(t[2], 0)
                         ok = x[0] == "call" and x[1] == "cbor_get_uint8" and ((pa.ret == ("c", 1) and hi == 23) or (pa.ret == ("c", 2) and lo == 24))
-                    chk.ob("C07.size-leaf", "8-bit integer: 1 byte up to 23, 2 above (path returns %s)" % (pa.ret[1] if is_const(pa.ret) else "?"),
+                    chk.ob(prefix + ".size-leaf", "8-bit integer: 1 byte up to 23, 2 above (path returns %s)" % (pa.ret[1] if is_const(pa.ret) else "?"),
                            ok, where, fn=f.name, key="leaf8:%s" % (pa.ret,), detail="" if ok else "threshold does not match the encoder's immediate range")
                 nleaf += 1
             else:
                 nbytes = {1: 2, 2: 4, 3: 8}[w]
                 ok = pa.ret == ("c", 1 + nbytes)
                 nleaf += 1
-                chk.ob("C07.size-leaf", "%s width %d -> %d bytes" % ("int" if is_int else "float", w, 1 + nbytes), ok, where, fn=f.name,
+                chk.ob(prefix + ".size-leaf", "%s width %d -> %d bytes" % ("int" if is_int else "float", w, 1 + nbytes), ok, where, fn=f.name,
                        key="leaf:%s:%d" % (is_int, w), detail="" if ok else "size reports %r, the encoder writes %d" % (pa.ret, 1 + nbytes))
         else:
             # composites: every add of two non-constant sizes goes through the signalling add
@@ -363,14 +363,14 @@ def check_size(chk, prog, eff, cache, H=None):
                     any(t[0] == "icmp" and t[1] == "ult" and t[2] == ("c", 0) and not truth for t, truth, _ in pa.facts)
                 ok = zero_len
                 det = "header-only size on a path where the length / member count is not known to be 0"
-            chk.ob("C07.size-sum", "path %d (type %s)" % (k, ty), ok, where, fn=f.name, key="sum:%d" % k, detail="" if ok else det)
+            chk.ob(prefix + ".size-sum", "path %d (type %s)" % (k, ty), ok, where, fn=f.name, key="sum:%d" % k, detail="" if ok else det)
             # the arguments of every signalling add are sizes, not raw sums
             for e in pa.calls("_cbor_safe_signaling_add"):
                 for a in e.args:
                     if isinstance(a, tuple) and a[0] == "op" and a[1] in ("add", "mul"):
-                        chk.ob("C07.size-sum", "path %d: operand of the signalling add is itself an unchecked %s" % (k, a[1]), False, e.ins.loc(),
+                        chk.ob(prefix + ".size-sum", "path %d: operand of the signalling add is itself an unchecked %s" % (k, a[1]), False, e.ins.loc(),
                                fn=f.name, key="rawop:%d" % e.ins.line)
-    chk.floor("C07.size-total", "sizing paths examined", npaths_, 20)
+    chk.floor(prefix + ".size-total", "sizing paths examined", npaths_, 20)
     # no raw 64-bit add of two non-constant values in the function at all
     for i in f.all_insts():
         if i.op in ("add", "mul") and i.type == "i64":
@@ -379,10 +379,10 @@ def check_size(chk, prog, eff, cache, H=None):
             both_var = not isinstance(a, Const) and not isinstance(b, Const)
             is_induction = any(u.op == "phi" for u in f.users(i))
             if both_var and not is_induction:
-                chk.ob("C07.size-sum", "raw %s of two sizes at %s" % (i.op, i.loc()), False, i.loc(), fn=f.name, key="raw:%d" % i.line,
+                chk.ob(prefix + ".size-sum", "raw %s of two sizes at %s" % (i.op, i.loc()), False, i.loc(), fn=f.name, key="raw:%d" % i.line,
                        detail="sizes must be combined with _cbor_safe_signaling_add so that overflow yields 0")
     # the head's argument: the size function sizes the head for the very quantity the serializer writes into it
-    chk.rule("C07.size-arg", "for every type with a counted head (definite strings, arrays, maps; tags) the value cbor_serialized_size hands "
+    chk.rule(prefix + ".size-arg", "for every type with a counted head (definite strings, arrays, maps; tags) the value cbor_serialized_size hands "
                              "to the header-size function is the same field of the item that the serializer hands to the head encoder "
                              "(accessor calls resolved to the fields they read)")
     pure = {n for n, g in prog.funcs.items() if not g.is_extra and n in eff.summ and not eff.summ[n]["writes"] and not eff.summ[n]["allocates"]
@@ -429,10 +429,10 @@ def check_size(chk, prog, eff, cache, H=None):
             want = set().union(*[v for k2, v in ser_side.items() if k2[0] == t_]) if any(k2[0] == t_ for k2 in ser_side) else None
         narg += 1
         ok = want is not None and terms <= want
-        chk.ob("C07.size-arg", "%s (flavours %s): header sized for the quantity the serializer encodes" % (Tn_[t_], list(fl_)), ok, where, fn=f.name,
+        chk.ob(prefix + ".size-arg", "%s (flavours %s): header sized for the quantity the serializer encodes" % (Tn_[t_], list(fl_)), ok, where, fn=f.name,
                key="sizearg:%d:%s" % (t_, fl_),
                detail="" if ok else "size uses %s, the serializer encodes %s" % (sorted(DR.fmt_term(x) for x in terms),
                                                                                  sorted(DR.fmt_term(x) for x in (want or []))))
-    chk.floor("C07.size-arg", "counted heads compared", narg, 4)
-    chk.floor("C07.size-leaf", "leaf cases", nleaf, 6)
-    chk.floor("C07.size-sum", "composite paths", sums, 12)
+    chk.floor(prefix + ".size-arg", "counted heads compared", narg, 4)
+    chk.floor(prefix + ".size-leaf", "leaf cases", nleaf, 6)
+    chk.floor(prefix + ".size-sum", "composite paths", sums, 12)
